@@ -216,6 +216,12 @@ type bounds struct {
 	headers   bool
 	maxIR     int
 	maxRedeli int
+	// parentsFirst restricts block deliveries to blocks whose parent was
+	// delivered (no orphans): used by the deeper layers to keep them tractable.
+	parentsFirst bool
+	// twoBranch restricts the trees to at most two leaves; connectOnly restricts
+	// invalid labels to the connect-time kind; exactN skips smaller trees.
+	twoBranch, connectOnly, exactN bool
 }
 
 func (s *sys) enabled(b bounds) []int {
@@ -225,6 +231,9 @@ func (s *sys) enabled(b bounds) []int {
 	var out []int
 	n := len(s.w.parent)
 	for i := 1; i < n; i++ {
+		if b.parentsFirst && s.w.parent[i] != 0 && s.delivered[s.w.parent[i]] == 0 {
+			continue
+		}
 		if s.delivered[i] == 0 || (s.delivered[i] == 1 && s.nRedeliv < b.maxRedeli) {
 			out = append(out, evCode(kD, i))
 		}
@@ -242,7 +251,10 @@ func (s *sys) enabled(b bounds) []int {
 			if _, known := s.c.BC.VerifNodeStatus(&s.w.blk[i].Hash); known && !s.manual[i] {
 				out = append(out, evCode(kI, i))
 			}
-			if s.manual[i] {
+			// reconsider: manually invalidated blocks, and any block the node has
+			// flagged invalid itself (it stays invalid by ground truth: the tip
+			// must not move unless a more-work valid chain results)
+			if st, known := s.c.BC.VerifNodeStatus(&s.w.blk[i].Hash); s.manual[i] || (known && st&(4|8) != 0) {
 				out = append(out, evCode(kR, i))
 			}
 		}
@@ -595,6 +607,20 @@ func trees(n int) [][]int {
 	return out
 }
 
+func leaves(parent []int) int {
+	hasKid := make([]bool, len(parent))
+	for i := 1; i < len(parent); i++ {
+		hasKid[parent[i]] = true
+	}
+	n := 0
+	for i := range parent {
+		if !hasKid[i] {
+			n++
+		}
+	}
+	return n
+}
+
 func labelings(n, maxInvalid int) [][]byte {
 	var out [][]byte
 	lab := make([]byte, n+1)
@@ -689,18 +715,21 @@ func main() {
 	var cfgs []cfg
 	if r.Thorough() {
 		cfgs = []cfg{
-			{5, 1, bounds{false, 0, 1}, "A: blocks only, N<=5, <=1 invalid, 1 re-delivery"},
-			{4, 2, bounds{false, 0, 1}, "A2: blocks only, N<=4, <=2 invalid"},
-			{4, 1, bounds{true, 0, 0}, "B: headers+blocks, N<=4"},
-			{4, 1, bounds{false, 2, 0}, "C: blocks + <=2 invalidate/reconsider, N<=4"},
-			{3, 1, bounds{true, 2, 0}, "BC: headers + invalidate/reconsider, N<=3"},
+			{5, 1, bounds{headers: false, maxIR: 0, maxRedeli: 1}, "A: blocks only, N<=5, <=1 invalid, 1 re-delivery"},
+			{4, 2, bounds{headers: false, maxIR: 0, maxRedeli: 1}, "A2: blocks only, N<=4, <=2 invalid"},
+			{4, 1, bounds{headers: true, maxIR: 0, maxRedeli: 0}, "B: headers+blocks, N<=4"},
+			{4, 1, bounds{headers: false, maxIR: 2, maxRedeli: 0}, "C: blocks + <=2 invalidate/reconsider, N<=4"},
+			{3, 1, bounds{headers: true, maxIR: 2, maxRedeli: 0}, "BC: headers + invalidate/reconsider, N<=3"},
+			{5, 1, bounds{maxIR: 1, parentsFirst: true, connectOnly: true, exactN: true}, "C5: N=5, <=1 connect-invalid block, parents-first deliveries + 1 invalidate/reconsider"},
+			{6, 1, bounds{maxIR: 1, parentsFirst: true, connectOnly: true, twoBranch: true, exactN: true}, "C6: N=6 two-branch trees, <=1 connect-invalid block, parents-first deliveries + 1 invalidate/reconsider"},
 		}
 		r.SetBudget(45 * time.Minute)
 	} else {
 		cfgs = []cfg{
-			{4, 1, bounds{false, 0, 1}, "A: blocks only, N<=4, <=1 invalid, 1 re-delivery"},
-			{3, 1, bounds{true, 0, 0}, "B: headers+blocks, N<=3"},
-			{3, 1, bounds{false, 2, 0}, "C: blocks + <=2 invalidate/reconsider, N<=3"},
+			{4, 1, bounds{headers: false, maxIR: 0, maxRedeli: 1}, "A: blocks only, N<=4, <=1 invalid, 1 re-delivery"},
+			{3, 1, bounds{headers: true, maxIR: 0, maxRedeli: 0}, "B: headers+blocks, N<=3"},
+			{3, 1, bounds{headers: false, maxIR: 2, maxRedeli: 0}, "C: blocks + <=2 invalidate/reconsider, N<=3"},
+			{5, 1, bounds{maxIR: 1, parentsFirst: true, connectOnly: true, twoBranch: true, exactN: true}, "C5: N=5 two-branch trees, <=1 connect-invalid block, parents-first deliveries + 1 invalidate/reconsider"},
 		}
 		r.SetBudget(5 * time.Minute)
 	}
@@ -710,8 +739,17 @@ func main() {
 		worlds := 0
 		st, tr := 0, 0
 		for n := 1; n <= c.n; n++ {
+			if c.b.exactN && n != c.n {
+				continue
+			}
 			for _, parent := range trees(n) {
+				if c.b.twoBranch && leaves(parent) > 2 {
+					continue
+				}
 				for _, lb := range labelings(n, c.maxInv) {
+					if c.b.connectOnly && strings.ContainsAny(string(lb), "XS") {
+						continue
+					}
 					if r.Expired() {
 						complete = false
 						continue
